@@ -2056,6 +2056,49 @@ impl<'a> From<GroupEntry<'a>> for Group<'a> {
   }
 }
 
+/// Replace the line breaks of formatted CDDL text that are layout, i.e. all but
+/// those inside text and byte string literals (a byte string may span lines
+/// and its line breaks are part of its value)
+fn replace_line_breaks(s: &str, with: &str) -> String {
+  let mut out = String::with_capacity(s.len());
+  let mut quote: Option<char> = None;
+  let mut chars = s.chars();
+  while let Some(c) = chars.next() {
+    match quote {
+      Some(q) => {
+        out.push(c);
+        if c == '\\' {
+          if let Some(n) = chars.next() {
+            out.push(n);
+          }
+        } else if c == q {
+          quote = None;
+        }
+      }
+      None => match c {
+        '"' | '\'' => {
+          quote = Some(c);
+          out.push(c);
+        }
+        // a comment runs to the end of its line: quotes inside it are text
+        ';' => {
+          out.push(c);
+          for n in chars.by_ref() {
+            if n == '\n' {
+              out.push_str(with);
+              break;
+            }
+            out.push(n);
+          }
+        }
+        '\n' => out.push_str(with),
+        _ => out.push(c),
+      },
+    }
+  }
+  out
+}
+
 /// Whether formatted CDDL text contains a comment (a ';' outside text and byte
 /// string literals)
 #[cfg(feature = "ast-comments")]
@@ -2096,12 +2139,12 @@ impl fmt::Display for Group<'_> {
         && !gc.has_entries_with_comments_before_comma()
         && !contains_comment(&gc_str)
       {
-        gc_str = gc_str.replace('\n', "");
+        gc_str = replace_line_breaks(&gc_str, "");
       }
 
       #[cfg(not(feature = "ast-comments"))]
       if self.group_choices.len() > 2 && gc.group_entries.len() <= 3 {
-        gc_str = gc_str.replace('\n', "");
+        gc_str = replace_line_breaks(&gc_str, "");
       }
 
       if idx == 0 {
@@ -2113,7 +2156,7 @@ impl fmt::Display for Group<'_> {
 
           #[cfg(feature = "ast-comments")]
           if self.group_choices.len() > 2 && gc.has_entries_with_comments_before_comma() {
-            gc_str = gc_str.replace('\n', "\n\t\t");
+            gc_str = replace_line_breaks(&gc_str, "\n\t\t");
             group_str.push_str(gc_str.trim());
           } else {
             group_str.push_str(gc_str.trim_start());
@@ -2121,7 +2164,7 @@ impl fmt::Display for Group<'_> {
 
           #[cfg(not(feature = "ast-comments"))]
           if self.group_choices.len() > 2 {
-            gc_str = gc_str.replace('\n', "\n\t\t");
+            gc_str = replace_line_breaks(&gc_str, "\n\t\t");
             group_str.push_str(gc_str.trim());
           } else {
             group_str.push_str(gc_str.trim_start());
@@ -2143,12 +2186,12 @@ impl fmt::Display for Group<'_> {
 
       #[cfg(feature = "ast-comments")]
       if self.group_choices.len() > 2 && gc.has_entries_with_comments_before_comma() {
-        gc_str = gc_str.replace('\n', "\n\t\t");
+        gc_str = replace_line_breaks(&gc_str, "\n\t\t");
       }
 
       #[cfg(not(feature = "ast-comments"))]
       if self.group_choices.len() > 2 {
-        gc_str = gc_str.replace('\n', "\n\t\t");
+        gc_str = replace_line_breaks(&gc_str, "\n\t\t");
       }
 
       if self.group_choices.len() <= 2 {
